@@ -21,12 +21,16 @@
 (*                     Delete(connRec[c])                                                     *)
 (*   LateCleanup(n,c)  the same code path, taken for a connection whose client has meanwhile  *)
 (*                     completed a newer handshake (old node notices late)                    *)
-(*   Tick              discrete clock; both keys lapse at their expiry                        *)
+(*   Tick              discrete clock; both keys lose one tick of remaining lifetime and      *)
+(*                     vanish at 0 (key TTL and the explicit ExpiresAt check coincide)        *)
 (*                                                                                            *)
 (* Backend shape: the store hands back what the configured backend returns for connRec:       *)
 (*   "ptr" (memory backend: the *Info that was stored), "str" (Redis: JSON string),           *)
 (*   "map" (JSON-decoded map).  GetConnectionState type-switches on it and, as-is, has no     *)
 (*   case for the pointer (fix "ptrShape").                                                   *)
+(*                                                                                            *)
+(* Every behaviour starts by fixing `shape` (from Shapes) and `fixes` (from FixSets), so one     *)
+(* TLC run covers every backend shape and both the as-is and the repaired code.                *)
 (*                                                                                            *)
 (* Deviations from the property are recorded per client in dev[x] (reset by x's next          *)
 (* handshake): "shape" (registration stored in a shape lookups cannot read), "lateCleanup"    *)
